@@ -62,7 +62,7 @@ type W struct {
 	quietPanics [maxTasks]int
 }
 
-const maxTasks = 72
+const maxTasks = 200 // caller tasks (at most 64 are generated) plus goroutines the library starts itself (rule R8)
 
 // Main is the entry point of the world binary: scenarios as JSON lines on
 // stdin, event/result lines on fd 3 (stdout when fd 3 is not open).
@@ -212,7 +212,11 @@ func (w *W) emitV(e scen.Event, v any) {
 
 func (w *W) task() int {
 	if w.sch != nil {
-		return w.sch.current()
+		t := w.sch.current()
+		if t > 0 && t < maxTasks && w.sch.owner[t] != 0 {
+			return w.sch.owner[t] // a goroutine the library started: its events belong to the call it serves
+		}
+		return t
 	}
 	return 0
 }
